@@ -94,11 +94,23 @@ def resetInternal (clearQueue : Bool) : DM Unit :=
   modify fun s => { s with p := {}, state := .idle, step := .IDLE,
                            queue := if clearQueue then [] else s.queue }
 
-def noticeOfCancellation (cond : Nat) : DM Unit :=
-  modify fun s => { s with step := .TRANSFER_COMPLETION,
-                           p := { s.p with fin := { s.p.fin with cond := cond }, canceled := true } }
-
 def abandonTransaction : DM Unit := resetInternal false
+
+/-- `_notice_of_cancellation` (dest.py): a fault declared while the Finished (cancel) PDU is being
+transferred abandons the transaction; returns whether the declaration goes on to report the fault -/
+def noticeOfCancellation (cond : Nat) : DM Bool := do
+  let s ← get
+  if s.p.canceled && s.step = .WAITING_FOR_FINISHED_ACK then
+    match s.p.tid with
+    | none => throw .assertionError
+    | some tid =>
+      modify fun s => { s with flts := s.flts ++ [⟨fhAbandon, tid, s.p.fin.cond, s.p.progress⟩] }
+      abandonTransaction
+      return false
+  else
+    modify fun s => { s with step := .TRANSFER_COMPLETION,
+                             p := { s.p with fin := { s.p.fin with cond := cond }, canceled := true } }
+    return true
 
 /-- `_declare_fault` (dest.py:1141-1155) -/
 def declareFault (cond : Nat) : DM Nat := do
@@ -112,11 +124,12 @@ def declareFault (cond : Nat) : DM Nat := do
     match fh with
     | none => throw .valueError
     | some fh =>
-      if fh = fhCancel then noticeOfCancellation cond
-      else if fh = fhSuspend then pure ()
-      else if fh = fhAbandon then abandonTransaction
-      -- report_fault: dispatches on the table again
-      modify fun s => { s with flts := s.flts ++ [⟨fh, tid, cond, progress⟩] }
+      let goOn ← if fh = fhCancel then noticeOfCancellation cond
+                 else if fh = fhAbandon then do abandonTransaction; pure true
+                 else pure true
+      if goOn then
+        -- report_fault: dispatches on the table again
+        modify fun s => { s with flts := s.flts ++ [⟨fh, tid, cond, progress⟩] }
       return fh
 
 def triggerNoticeOfCompletionCanceled (cond : Nat) (floc : EntityId) : DM Unit :=
@@ -492,8 +505,9 @@ def handlePositiveAckProcedures (env : Env) (recurse : DM Unit) : DM Unit := do
   | some t, some rc =>
     if t.timedOut env.now then
       if p.ackCounter + 1 ≥ rc.ackLim then
-        let _ ← declareFault ccPositiveAckLimit
-        if (← getP).canceled then
+        let fh ← declareFault ccPositiveAckLimit
+        if (← get).state = .idle then return ()
+        if fh = fhCancel then
           recurse
           return
       match (← getP).ackTimer with
